@@ -62,7 +62,8 @@ Begin ==
          instant |-> IF "instant" \in DOMAIN Ev THEN Ev.instant ELSE FALSE,
          early |-> IF "early" \in DOMAIN Ev THEN Ev.early ELSE FALSE,
          kd |-> IF "kd" \in DOMAIN Ev THEN Ev.kd ELSE 0,
-         stale |-> IF "stale" \in DOMAIN Ev THEN Ev.stale ELSE FALSE])
+         stale |-> IF "stale" \in DOMAIN Ev THEN Ev.stale ELSE FALSE,
+         gsnap |-> grace])      \* overlap snapshots already written when this command began
   /\ now' = Ev.now
   /\ excused' = (excused \/ (("instant" \in DOMAIN Ev /\ Ev.instant) /\ ("early" \in DOMAIN Ev /\ Ev.early)))
   /\ viol' = {}
@@ -86,7 +87,8 @@ End ==
                    THEN {<<"RefusedEarly", cmds[Ev.proc].cmd, cmds[Ev.proc].nmut>>} ELSE {})
   /\ cmds' = IF Known(Ev.proc) THEN Drop(cmds, Ev.proc) ELSE cmds
   /\ lastEnd' = IF Known(Ev.proc) THEN <<cmds[Ev.proc].cmd, Ev.res>> ELSE <<>>
-  /\ grace' = IF Known(Ev.proc) /\ cmds[Ev.proc].cmd = "prune" /\ Ev.res = "ok" THEN {} ELSE grace
+  \* a completed prune brings back what the snapshots present at its beginning need
+  /\ grace' = IF Known(Ev.proc) /\ cmds[Ev.proc].cmd = "prune" /\ Ev.res = "ok" THEN grace \ cmds[Ev.proc].gsnap ELSE grace
   /\ UNCHANGED <<sc, packs, idx, snaps, marks, ao, now, excused, base, dbase, loading, must>>
 
 BlobSet(seq) == Range(seq)
@@ -183,6 +185,11 @@ Baseline ==
   /\ viol' = {}
   /\ UNCHANGED <<sc, packs, idx, snaps, marks, cmds, ao, now, excused, grace, must>>
 
+Note ==
+  /\ Ev.e = "note"
+  /\ viol' = {}
+  /\ UNCHANGED <<sc, packs, idx, snaps, marks, cmds, ao, now, excused, base, dbase, loading, grace, must>>
+
 Fail ==
   /\ Ev.e = "fail"
   /\ cmds' = Bump(Ev.proc, "nfail")
@@ -212,19 +219,22 @@ Probe ==
              \cup (IF Ev.check # "clean" /\ grace = {} THEN {<<"CheckNotClean", Ev.check>>} ELSE {})
   /\ UNCHANGED <<sc, packs, idx, snaps, marks, cmds, ao, now, excused, base, dbase, loading, grace, must>>
 
-Next == Consume /\ (End \/ Probe \/ (lastEnd' = <<>> /\ (Reset \/ Begin \/ Remember \/ Baseline \/ Damage \/ WPack \/ WIdx \/ WSnap \/ WOther \/ Rm \/ Fail \/ Tick \/ Cfg)))
+Next == Consume /\ (End \/ Probe \/ (lastEnd' = <<>> /\ (Reset \/ Begin \/ Note \/ Remember \/ Baseline \/ Damage \/ WPack \/ WIdx \/ WSnap \/ WOther \/ Rm \/ Fail \/ Tick \/ Cfg)))
 Spec == Init /\ [][Next]_vars
 
 Running == {cmds[p].cmd : p \in DOMAIN cmds}
 
 StepOK == viol = {} \/ PrintT(<<"NONCONF", l, sc, "step", viol>>)
 
+\* used blobs (of snapshots outside the grace set) that are available only in packs marked for deletion
+NotBroughtBackNG == ((UNION {snaps[x] : x \in DOMAIN snaps \ grace}) \cap P!Parked) \ P!Indexed
+
 StateOK == loading \/
   /\ (P!Unreadable \ base) \ grace = {} \/ PrintT(<<"NONCONF", l, sc, "state", {<<"Unreadable", (P!Unreadable \ base) \ grace, excused, Running>>}>>)
   /\ P!Unrecoverable = {} \/ PrintT(<<"NONCONF", l, sc, "state", {<<"Unrecoverable", P!Unrecoverable, excused, Running>>}>>)
   /\ P!Dangling \ dbase = {} \/ PrintT(<<"NONCONF", l, sc, "state", {<<"Dangling", {e.p : e \in P!Dangling \ dbase}, excused, Running>>}>>)
   /\ (lastEnd # <<"repair_index", "ok">> \/ must \cap P!Unreadable = {}) \/ PrintT(<<"NONCONF", l, sc, "state", {<<"Rebuild", must \cap P!Unreadable, excused, Running>>}>>)
-  /\ (lastEnd # <<"prune", "ok">> \/ P!NotBroughtBack = {}) \/ PrintT(<<"NONCONF", l, sc, "state", {<<"NotBroughtBack", P!NotBroughtBack, excused, Running>>}>>)
+  /\ (lastEnd # <<"prune", "ok">> \/ NotBroughtBackNG = {}) \/ PrintT(<<"NONCONF", l, sc, "state", {<<"NotBroughtBack", NotBroughtBackNG, excused, Running>>}>>)
 
 AllConsumed == l = Len(Rec) \/ TRUE
 Accepted == TLCGet("stats").diameter - 1 = Len(Rec)
